@@ -12,6 +12,8 @@ text forms (no spaces inside a form)
 ops
   `geom <geometry>`        answer `<json> <geometry|err> <geometry|err>`   json.Marshal(Geometry); the text back through
                             json.Unmarshal(&Geometry) and through geojson.Unmarshal
+  `bits <geometry>`        answer `<geometry|err> <geometry|err>`          atoms = IEEE-754 bit patterns (as int64) of arbitrary
+                            finite float64 coordinates; json.Marshal(Geometry) → both decoders, compared by math.Float64bits
   `parse <json>`           answer `<geometry|err> <geometry|err>`          (same two decoders on harness-written JSON)
   `coll <feature>…`        answer `coll <feature>…` | `err`                json.Marshal(FeatureCollection) → geojson.Unmarshal
   `import <feature>…`      answer `filled=<n|panic> apply=<ok|err|-> world=<n>`   FillFromGeoJSON + Apply on an empty world
@@ -20,7 +22,7 @@ ops
                             polygons→loops→[hole(0/1),[positions]]>` | `?`; tagval := `s:<str>` | `P:[lat,lng]` | `L:<tree>`
                             (tags in stored order — the order of the properties among them is Go's map order)
 
-Predicates.  `geom`, `coll`: what comes back equals what went in (`roundtrip`).  `feat i` (only when every feature of
+Predicates.  `geom`, `bits`, `coll`: what comes back equals what went in (`roundtrip`).  `feat i` (only when every feature of
 the collection is well shaped): GeoJSON feature `i` is found once, under the expected kind, with the same geometry
 (loops compared as cycles in either direction, a polygon as a set of loops, ring 0 outer and the others holes) and
 every property readable by key (`import_one_per_feature`).  Failures in the two recorded classes carry
@@ -271,6 +273,21 @@ def step (st : St) (op impl : String) : St × Verdict :=
           if b1 != gs || b2 != gs then Verdict.propfail "roundtrip"
           else if impl == model then .ok else .diff model
         | _ => if impl == model then .ok else .propfail "roundtrip"
+      (st, v)
+  | ["bits", gs] =>
+    -- atoms are IEEE bit patterns of arbitrary finite float64 coordinates: both decoders must return them unchanged
+    match parseGeom gs with
+    | none => (st, .bad)
+    | some g =>
+      let j := marshalGeometry g
+      let back := renderOpt (unmarshalGeometry j)
+      let back2 := renderOpt ((unmarshalDoc (.geometry j)).bind fun | .geometry g' => some g' | _ => none)
+      let model := s!"{back} {back2}"
+      let v := match words impl with
+        | [b1, b2] =>
+          if b1 != gs || b2 != gs then Verdict.propfail "roundtrip-float64"
+          else if impl == model then .ok else .diff model
+        | _ => .propfail "roundtrip-float64"
       (st, v)
   | ["parse", js] =>
     match parseJ js with
